@@ -146,15 +146,22 @@ func classify(dump string) (bool, string) {
 		// a select with a timer case or a receive from a timer channel is still
 		// "parked" by state; the harness and the library paths driven by it have no
 		// such waits except the ones listed in DESIGN 3.6.
-		if !ok {
-			quiet = false
-		}
 		top := ""
 		if len(lines) > 1 {
 			top = strings.TrimSpace(lines[1])
 			if k := strings.Index(top, "("); k > 0 {
 				top = top[:k]
 			}
+		}
+		// "semacquire" is also the wait reason of runtime-internal semaphores (e.g. a
+		// goroutine about to start a GC cycle waits for worldsema, which the snapshot
+		// itself holds while it stops the world). Only a semaphore wait entered through
+		// package sync is a wait for another goroutine.
+		if state == "semacquire" && !strings.HasPrefix(top, "sync.") {
+			ok = false
+		}
+		if !ok {
+			quiet = false
 		}
 		sigs = append(sigs, m[1]+":"+state+":"+top)
 	}
@@ -214,5 +221,14 @@ func TrimDump(d string, max int) string {
 func QuietNow() (quiet bool, mutexWaiters int) {
 	d := stacks()
 	q, sig := classify(d)
+	if q {
+		LastQuietDump = d
+	}
 	return q, strings.Count(sig, ":sync.Mutex.Lock:")
 }
+
+// Stacks returns the full goroutine dump (diagnostics).
+func Stacks() string { return stacks() }
+
+// LastQuietDump is the dump on which the most recent positive QuietNow verdict was based (diagnostics).
+var LastQuietDump string
